@@ -110,9 +110,25 @@ external("codemodder.utils.update_finding_metadata.update_finding_metadata", par
          returns="list[ChangeSet]", pure=True,
          ensures=["len(result) == len(changesets)", "all(result[i].path == changesets[i].path and result[i].diff == changesets[i].diff for i in range(len(changesets)))"],
          note="update_finding_metadata: same changesets (same paths/diffs), only rule name/url of matching findings rewritten")
-contract("codemodder.context.CodemodExecutionContext.add_description", props=["C15"], functional=True,
-         reads=["CodemodExecutionContext.dependencies", "_dependency_update_by_codemod"], trusted=True,
-         params={"self": _CX, "codemod": _BC}, returns="str", note="description text of one codemod (reads only that codemod's keys); verified separately when claimed")
+import codemodder.dependency as _dep
+from pyvc.api import REG as _REG
+_REG.spec_globals.update({"build_failed_dependency_notification": _dep.build_failed_dependency_notification,
+                          "build_dependency_notification": _dep.build_dependency_notification})
+external("codemodder.dependency.build_dependency_notification", params={"filename": "Opaque", "dependency": "Dependency"}, returns="str", pure=True,
+         note="text saying the dependency was added to <filename>")
+external("codemodder.dependency.build_failed_dependency_notification", params={"dependency": "Dependency"}, returns="str", pure=True,
+         note="text saying the dependency could NOT be added (manual installation)")
+external("codemodder.codemods.base_codemod.BaseCodemod.description", params={"self": _BC}, returns="str", pure=True, note="read-only metadata property")
+contract("codemodder.context.CodemodExecutionContext.add_description", props=["C15", "C14"], functional=True,
+         reads=["CodemodExecutionContext.dependencies", "_dependency_update_by_codemod"],
+         params={"self": _CX, "codemod": _BC}, returns="str",
+         ensures=[("a codemod that needed no dependency gets its plain description",
+                   "implies(len(lookup(self.dependencies, codemod.id, typed_empty('set[Dependency]'))) == 0, result == codemod.description)"),
+                  ("needed a dependency and no manifest was updated for THIS codemod: the report says so (failed-update notice for one of its dependencies)",
+                   "implies(len(lookup(self.dependencies, codemod.id, typed_empty('set[Dependency]'))) > 0"
+                   " and lookup(self._dependency_update_by_codemod, codemod.id, None) is None,"
+                   " any(result == codemod.description + build_failed_dependency_notification(d) for d in lookup(self.dependencies, codemod.id, typed_empty('set[Dependency]'))))")],
+         note="description text of one codemod (reads only that codemod's keys)")
 spec("compiled", {"self": _CX, "codemods": "list[BaseCodemod]", "k": "int"}, "list[codemodder.codetf.Result]", recursive=True,
      reads=["_changesets_by_codemod", "_failures_by_codemod", "_unfixed_findings_by_codemod", "CodemodExecutionContext.dependencies", "_dependency_update_by_codemod"],
      body="typed_empty('list[codemodder.codetf.Result]') if k <= 0 else compiled(self, codemods, k - 1) + [CodeTFResult("
